@@ -197,6 +197,17 @@ func init() {
 			}
 		}
 	})
+	// wire tcpclose <id>: the harness client closes its connection (FIN)
+	vReg("wire tcpclose", func(a []string) string {
+		id, _ := strconv.Atoi(a[0])
+		c, ok := vWireTCP[id]
+		if !ok {
+			return "no-conn"
+		}
+		c.Close()
+		delete(vWireTCP, id)
+		return "ok"
+	})
 	// wire tcpclosed <id> <timeout ms>: did the proxy close the connection?
 	vReg("wire tcpclosed", func(a []string) string {
 		id, _ := strconv.Atoi(a[0])
